@@ -380,16 +380,16 @@ theorem timerState_success {r : Rec} (hf : r.finished = true) (hn : r.failure = 
     re-created after the idle wait while it has made no attempt) is awake and executed, or nothing
     is awakened and the record is kept. -/
 theorem timerRun_step (env : Env) (l : Limits) (iv : Nat) (sh : Bool) (iu now : Int) (r : Rec) (x : Raised) (dur : Nat)
-    (rest : List (Raised × Nat)) :
+    (rest : List (Raised × Nat × Int)) :
     ((timerState r now (timerAt now iu)).awakened (timerAt now iu) = true ∧
-      timerRun env l iv sh iu now r ((x, dur) :: rest) =
+      timerRun env l iv sh now r ((x, dur, iu) :: rest) =
         .att (attemptAt env l (timerAt now iu) (timerState r now (timerAt now iu)) x dur 0) ::
-          timerRun env l iv sh iu (timerNext iv sh (attemptAt env l (timerAt now iu) (timerState r now (timerAt now iu)) x dur 0))
+          timerRun env l iv sh (timerNext iv sh (attemptAt env l (timerAt now iu) (timerState r now (timerAt now iu)) x dur 0))
             (attemptAt env l (timerAt now iu) (timerState r now (timerAt now iu)) x dur 0).recAfter rest) ∨
     ((timerState r now (timerAt now iu)).awakened (timerAt now iu) = false ∧
-      timerRun env l iv sh iu now r ((x, dur) :: rest) =
+      timerRun env l iv sh now r ((x, dur, iu) :: rest) =
         .idle (timerAt now iu) (timerState r now (timerAt now iu)).finished ::
-          timerRun env l iv sh iu (timerIdleNext iv sh (timerState r now (timerAt now iu)) (timerAt now iu))
+          timerRun env l iv sh (timerIdleNext iv sh (timerState r now (timerAt now iu)) (timerAt now iu))
             (timerState r now (timerAt now iu)) rest) := by
   cases h : (timerState r now (timerAt now iu)).awakened (timerAt now iu)
   · right; exact ⟨rfl, by simp [timerRun, h]⟩
